@@ -12,6 +12,7 @@ mod gs;
 mod gsgen;
 mod ops;
 mod up;
+mod ex;
 
 use common::*;
 use std::io::Write;
@@ -39,6 +40,11 @@ impl World for up::UpWorld {
         up::UpWorld::exec(self, toks)
     }
 }
+impl World for ex::ExWorld {
+    fn exec(&mut self, toks: &[&str]) -> (String, String) {
+        ex::ExWorld::exec(self, toks)
+    }
+}
 impl World for gw::GwWorld {
     fn exec(&mut self, toks: &[&str]) -> (String, String) {
         gw::GwWorld::exec(self, toks)
@@ -52,6 +58,7 @@ pub fn new_world(cluster: &str) -> Box<dyn World> {
         "gs" => Box::new(gs::GsWorld::new()),
         "op" => Box::new(ops::OpsWorld::new()),
         "up" => Box::new(up::UpWorld::new()),
+        "ex" => Box::new(ex::ExWorld::new()),
         other => panic!("unknown cluster {other}"),
     }
 }
@@ -114,6 +121,7 @@ fn main() {
                 "C14" => gsgen::gen_c14(&mut run, seed, thorough),
                 "C17" => ops::gen_c17(&mut run, seed, thorough),
                 "C15" => up::gen_c15(&mut run, seed, thorough),
+                "C16" => ex::gen_c16(&mut run, seed, thorough),
                 other => {
                     eprintln!("no generator for {other}");
                     std::process::exit(2);
